@@ -38,6 +38,10 @@ FAMILY = [
      [("i3", {"T": "int", "n": "3"}, "array(7, 8, 9), 2, 0", ["r"]), ("f2", {"T": "float", "n": "2"}, "array(0.5, 1.5), 1, 0.0", ["int(r * 2.0)"])]),
     ("scale", "@guppy\ndef {N}(x: int{K}) -> int:\n    return x * {k} + {k}\n", {"K": ", k: int @comptime", "k": "k"},
      [("3", {"K": "", "k": "3"}, "5", ["r"], "{N}(5, 3)"), ("m2", {"K": "", "k": "-2"}, "5", ["r"], "{N}(5, -2)")]),
+    ("weigh", "@guppy\ndef {N}(x: int{K}) -> int:\n    return x * 100 + {a} * 10 + {b}\n", {"K": ", a: int @comptime, b: int @comptime", "a": "a", "b": "b"},
+     [("23", {"K": "", "a": "2", "b": "3"}, "1", ["r"], "{N}(1, 2, 3)"), ("70", {"K": "", "a": "7", "b": "0"}, "4", ["r"], "{N}(4, 7, 0)")]),
+    ("weigh3", "@guppy\ndef {N}{P}(x: {T}{K}) -> tuple[{T}, int]:\n    return x, {a} * 100 + {b} * 10 + {c}\n", {"P": "[T: (Copy, Drop)]", "T": "T", "K": ", a: nat @comptime, b: nat @comptime, c: nat @comptime", "a": "a", "b": "b", "c": "c"},
+     [("f", {"T": "float", "K": "", "a": "1", "b": "2", "c": "3"}, "0.5", ["int(r[0] * 2.0)", "r[1]"], "{N}(0.5, 1, 2, 3)")]),
     ("flag", "@guppy\ndef {N}{P}(x: int) -> int:\n    if {b}:\n        return x + 1\n    return x - 1\n", {"P": "[b: bool]", "b": "b"},
      [("t", {"b": "True"}, "10", ["r"], "{N}[True](10)"), ("f", {"b": "False"}, "10", ["r"], "{N}[False](10)")]),
     ("fill", "@guppy\ndef {N}{P}(x: {T}) -> array[{T}, {n}]:\n    return array(x for _ in range({n}))\n", {"P": "[T: (Copy, Drop), n: nat]", "T": "T", "n": "n"},
